@@ -7,7 +7,8 @@ NoCtr == [hi |-> -1, lo |-> 0]
 Cred(id, rp, user, ctr, hm) == [id |-> id, rp |-> rp, user |-> user, ctr |-> ctr, hm |-> hm]
 BaseCfg == [uvCap |-> "configured", upCap |-> TRUE, counterOn |-> TRUE, idLen |-> 16, hmac |-> "off", mc |-> FALSE,
             storeKind |-> "reference", disc |-> "full", emptyAsErr |-> FALSE,
-            wrap |-> "none", tr |-> "default"]     \* which shipped lock wrapper stands in front of the reference store (transparent in the model)
+            wrap |-> "none", tr |-> "default",
+            order |-> "oldest"]  \* the reference store lists a relying party's credentials oldest first / newest first     \* which shipped lock wrapper stands in front of the reference store (transparent in the model)
 NoPrfReq == [given |-> FALSE, eval |-> "absent", byCred |-> <<>>, byCredGiven |-> FALSE]
 BaseReq == [rp |-> "r1", user |-> "u1", algs |-> <<"ES256">>, exclude |-> <<>>, excludeGiven |-> FALSE,
             allow |-> <<>>, allowGiven |-> FALSE, rk |-> FALSE, up |-> TRUE, uv |-> FALSE, pinAuth |-> FALSE,
@@ -59,5 +60,10 @@ C19_Triples == { <<AssertOn("c1"), AssertOn("c1"), AssertOn("c1")>>, <<AssertOn(
 C19_BusyPairs == { <<Failing(AssertOn("c1"), <<6, 0, 0>>), Register("u3", TRUE)>>, <<Failing(AssertAny, <<6, 0, 0>>), AssertOn("c1")>>,
                    <<Failing(AssertOn("c2"), <<5, 0, 0>>), AssertOn("c1")>>,
                    <<Failing(RegisterExcluding("u3", <<"c1">>), <<6, 0, 0>>), AssertOn("c1")>> }
+\* C04 under concurrency: the store changes while a consent prompt is pending (a registration for the same RP on a
+\* store that lists newest first; an assertion by another ceremony)
+C04_ConcCfgs == { [BaseCfg EXCEPT !.order = o] : o \in {"oldest", "newest"} }
+C04_ConcPairs == { <<AssertAny, Register("u3", TRUE)>>, <<AssertAny, Register("u3", FALSE)>>, <<AssertOn("c2"), Register("u2", TRUE)>>,
+                   <<AssertAny, AssertOn("c2")>> }
 C19_FailPairsAll == C19_FailPairs \cup C19_BusyPairs
 =============================================================================
